@@ -378,6 +378,11 @@ theorem step_keeps_ptr (w : World) (op : Op) (i : Nat) (p : Obj) (h : PtrAt w i 
     split
     · split <;> exact append_keeps _ _ _ _ h
     · exact append_keeps _ _ _ _ h
+  | unary u i0 =>
+    simp only [step]
+    split
+    · split <;> exact append_keeps _ _ _ _ h
+    · exact append_keeps _ _ _ _ h
   | bin k i0 j0 =>
     simp only [step]
     split
@@ -466,6 +471,10 @@ theorem no_value_on_error (w : World) (op : Op) (e : Err) (h : (step U w op).2 =
     split at h <;> try (split at h)
     all_goals simp_all
   | translate i t =>
+    simp only [step] at h ⊢
+    split at h <;> try (split at h)
+    all_goals simp_all
+  | unary u i =>
     simp only [step] at h ⊢
     split at h <;> try (split at h)
     all_goals simp_all
@@ -686,6 +695,35 @@ theorem dynAdd_result (a b a' b' : Obj) (v : Val) (h : dynAdd U a b = .ok (a', b
     obtain ⟨r, s', o'⟩ := x
     simp [hi, bind, Except.bind] at h
     exact ⟨r, _, (infer_ok_iff U a b r).1 ⟨s', o', hi⟩, h.2.2.symm⟩
+
+/-- **A unary operator or method never changes what its operand belongs to**: the new pointer has the
+operand's vocabulary, algebra and length, the new symbol / node the operand's type.  (Only
+`reinterpret`/`translate` produce an object of another vocabulary: `reinterpret_result`.) -/
+theorem unary_keeps_membership (u : UnOp) (a o : Obj) (h : unary U u a = .ok o) : o = a := by
+  cases a with
+  | ptr v alg l =>
+    simp only [unary] at h
+    split at h
+    · cases h
+    · injection h with h; exact h.symm
+  | sym t => simp only [unary] at h; injection h with h; exact h.symm
+  | dyn t g =>
+    cases u <;> cases t <;> simp only [unary] at h <;>
+      first
+        | (cases h <;> rfl)
+        | (split at h <;> cases h <;> rfl)
+  | mod t => simp [unary] at h
+  | num => simp [unary] at h
+  | npnum => simp [unary] at h
+  | arr l => simp [unary] at h
+
+/-- hence combining the outcome of a unary operation with any operand is accepted, rejected and
+typed exactly like combining the operand itself: a typed symbol stays bound to its vocabulary through
+`-x`, `~x`, `x.normalized()`, `x.unitary()`, `x.linv()`, `x.rinv()` -/
+theorem unary_then_binop (u : UnOp) (a o b : Obj) (k : BinOp) (h : unary U u a = .ok o) :
+    binop U k o b = binop U k a b ∧ binop U k b o = binop U k b a := by
+  rw [unary_keeps_membership U u a o h]
+  exact ⟨rfl, rfl⟩
 
 /-- `reinterpret(a, vocab)` gives the result exactly the requested vocabulary; `reinterpret(a)`
 gives a result without vocabulary -/
